@@ -3,7 +3,7 @@ methods are wrapped in this process), and IODIFF requests for the model."""
 import threading
 from .wire import val_tokens, OutOfUniverse
 from .pkl import enc_str
-from .diffing import thr_frac, keys_modelled
+from .diffing import thr_frac, keys_modelled, set_items_modelled
 
 _state = threading.local()
 
@@ -65,8 +65,8 @@ def run_observed(t1, t2, **kw):
 
 
 def iodiff_line(t1, t2, pairs, rep=False, thr=0.33, ignore_private=True, verbose=2):
-    if not (keys_modelled(t1) and keys_modelled(t2)):
-        raise OutOfUniverse('dictionary keys outside the path model (bytes, tuples)')
+    if not (keys_modelled(t1) and keys_modelled(t2) and set_items_modelled(t1) and set_items_modelled(t2)):
+        raise OutOfUniverse('dictionary keys / set members outside the path model (bytes and tuple keys, container members of sets)')
     n, d = thr_frac(thr)
     f = lambda b: 'T' if b else 'F'
     ptoks = []
